@@ -19,6 +19,29 @@ CHECKS = {
             "those bounds, nothing sampled.",
             "Trusted: the reference transcription of Utils.murmur2/toPositive. Random 4 KiB keys are not covered.",
             "3/C17"),
+    "C12": (MC, "explicit-state exploration: every schedule of a bounded action alphabet executed on the real "
+                "connection object and compared step by step with a reference model",
+            "A real AIOKafkaConnection on an in-memory transport under a virtual clock is driven through every schedule "
+            "over {issue request, feed response bytes to the next cut, advance clock, cancel waiter, EOF, reset} within "
+            "stated bounds (1..3 requests quick / 1..4 thorough for interleavings, 1..8 for fragmentation, all pairs of "
+            "cut positions, every single corruption at every frame position, EOF/reset after every byte, correlation "
+            "counter wrap), each run from scratch; after every action each waiter's outcome must equal the reference "
+            "model's. Exhaustive inside the bounds; states/transitions are the model states and actions executed.",
+            "Trusted: the ~80-line reference model of the connection contract; hand-encoded response frames. Short "
+            "writes client->broker and the deliberate FindCoordinator-v0 'Kafka 0.8.2 quirk' are not exercised.",
+            "3/C12"),
+    "C18": (EX, "exhaustive bounded enumeration of logins and single-field tamperings vs an independent RFC 5802 server",
+            "Exhaustive bounded enumeration of real ScramAuthenticator logins (via step() and via "
+            "AIOKafkaConnection._do_sasl_handshake v0/v1) against an independent RFC 5802/7677 server validated on the "
+            "RFC example exchanges: credentials x salts 1..64 B x iteration counts 1..20000 x SHA-256/512 x server "
+            "nonces, honest plus every single-field tampering of server-first (all nonce positions, salt bits, "
+            "iteration count) and server-final (all signature bits, all text bits, wrong key/transcript/length, error "
+            "attribute).",
+            "Oracle: the honest login's client messages are accepted by the reference server and the client completes; "
+            "the client completes only if the server nonce starts with its own and server-final carries the RFC-derived "
+            "ServerSignature. Not demanded: rejecting a server nonce with empty server part, non-canonical base64 of "
+            "the correct signature, SASLprep normalisation, empty username.",
+            "3/C18"),
 }
 
 NOT_APPLICABLE = {}
